@@ -56,6 +56,14 @@ def families(tier):
     # F14: %rewrite %global as in the shipped rulebooks (xpl / route-policy bodies): rows nest inside rewritten rows
     add("F14-rewrite-global-nested", [[Rule("a *", [Rule("c *", rewrite=True, glob=True)])],
                                       [Rule("a", [Rule("~", rewrite=True, glob=True)])]])
+    # F15: an %ordered block with two default-logic leaf children (a moved block is removed and re-created: its
+    #      children inherit the move whatever their own position)
+    add("F15-ordered-block-two-children", [[Rule("a *", [Rule("c"), Rule("d")], ordered=True)],
+                                           [Rule("a *", [Rule("c *"), Rule("d")], ordered=True)]])
+    # F16: three rows of one %ordered rule (permutations in which a later row is back on its old index)
+    add("F16-ordered-three-rows", [[Rule("a *", ordered=True, nkeys=3)],
+                                   [Rule("b"), Rule("a ~", ordered=True, nkeys=3)],
+                                   [Rule("a *", [Rule("c *", ordered=True, nkeys=3)])]])
     if tier == "thorough":
         # F6: depth 3
         add("F6-depth3", [[Rule("a *", [Rule("c *", [Rule(shape(s, "e"), **f)])])]
@@ -79,4 +87,4 @@ def families(tier):
 
 
 def knobs(tier):
-    return {"cap": 36 if tier == "quick" else 400}
+    return {"cap": 44 if tier == "quick" else 400}
